@@ -273,6 +273,8 @@ EXOTIC_DOCS = [
     r'{"": 1, " ": 2, "a b": 3, "0": 4, "-1": 5, "\u00e9": 6, "e\u0301": 7, "$": 8, "@": 9, "*": 10}',
     "[0.1, 0.30000000000000004, -0.0, 1e16, 10000000000000000, 1e22, 1e23, 5e-324, 2.2250738585072014e-308, 1.7976931348623157e308, 123456789012345678]",
     "[9223372036854775807, 9223372036854775808, 18446744073709551615, 18446744073709551616, -9223372036854775809, 1e400, -1e400]",
+    # text that looks like JSON structure, inside strings and member names (what a re-formatter working on text would touch)
+    r'{"[ ]": "checkbox [ ] unticked", "{  }": ["{ }", "[  ]", "a, b", "a: b", "[\n]", "\"", "\\", "[ }", "}{", ",", ":"], "k": "x", "a": {"[  ]": [[], {}, [[]], " ", ""]}}',
     '"just a string"', "42", "null", "true", "[]", "{}", "[[]]", "[{}]", '{"a": []}',
     '{"a": {"a": {"a": {"a": "x"}}}, "b": [[], {}, [[]], [{}]]}',
     '["' + "x" * 70000 + '\u00e9", "' + "\u00e9" * 9000 + '"]',
@@ -289,7 +291,7 @@ def _structural_pos(rng, b: bytes) -> int:
     return rng.randrange(len(b))
 
 
-FAULTS = ("none", "none", "none", "truncate", "byteflip", "bitflip", "bad-utf8", "bom", "utf16", "utf32", "garbage", "lone-surrogate", "huge-int", "over-deep", "empty")
+FAULTS = ("none", "none", "none", "truncate", "byteflip", "bitflip", "bad-utf8", "bom", "utf16", "utf32", "garbage", "lone-surrogate", "huge-int", "over-deep", "empty", "partial-char-at-end")
 
 
 def apply_fault(rng, text: str, fault: str) -> bytes:
@@ -328,6 +330,13 @@ def apply_fault(rng, text: str, fault: str) -> bytes:
         return b"[" * n + b"]" * n
     if fault == "empty":
         return rng.choice((b"", b" ", b"\n"))
+    if fault == "partial-char-at-end":
+        # a complete JSON value, then the input stops in the middle of a multi-byte character
+        # (what an incremental decoder only notices if it is told that the input has ended)
+        if rng.random() < 0.3:
+            enc = rng.choice(("utf-16", "utf-16-le", "utf-32", "utf-32-be"))
+            return text.encode(enc) + rng.choice((b"[", b"\x00", b"\x20\x00\x00"))[: 1 if "16" in enc else rng.choice((1, 2, 3))]
+        return b + rng.choice((b"", b"\n", b" ", b"\r\n")) + rng.choice((b"\xc3", b"\xe2", b"\xe2\x82", b"\xf0", b"\xf0\x9f", b"\xf0\x9f\x98"))
     raise ValueError(fault)
 
 
